@@ -5,7 +5,14 @@ is the bit-reversed power of one primitive 2048-th root of unity / of its invers
 (2) the n^-1 constant selected for every supported length n satisfies n * ninv = 1 (mod q), and
 each transform entry point hands the right table to the generic butterfly (forward table to
 fft/merge, inverse table to ifft/split).
-Not decided: that the generic butterflies compute the negacyclic transform for all inputs.
+(3) algebra (added while building): the transform entry points are interpreted on a vector of n SYMBOLIC field
+elements, every element carrying its exact residue-class polynomial in the input symbols (Felt + - * through the
+contracts proved under C12, table entries as their constant values). Decided as exact polynomial identities, i.e.
+for ALL inputs: fft(a)[i] = a(r_i) with r_i^n = -1 and the r_i pairwise distinct (evaluation at the n roots of
+X^n + 1, in whatever order the code uses); ifft(fft(a)) = a; and for the small lengths directly
+ifft(fft(a) .* fft(b)) = a * b mod (X^n + 1). The first two give the product statement for every length by the
+Chinese remainder theorem (evaluation at the roots is a ring isomorphism and ifft is its inverse).
+quick: n = 1 .. 256 (product up to 16); thorough: n = 1 .. 1024 (product up to 64).
 """
 from fv.absint import St, Pt, Ag, I
 from fv.facts import CheckerError
@@ -124,7 +131,122 @@ def run(R):
                 else:
                     R.ok("C11-table", name, f"all 1024 entries equal psi^({'' if name == 'forward' else '-'}bitrev10(i)) mod q with psi = {psi}; all canonical (< q)", key=f"{name}-entries")
             R.floor("table entries checked", 2048 - 0, 2048)
+    clause_algebra(R)
     obls = S.obligations_since(0)
     R.analysed["e2_obligations_seen"] = len(obls)
     R.analysed["models_used"] = sorted(ctx.models_used)
     R.analysed["unsupported"] = S.unsupported[:10]
+
+
+def clause_algebra(R):
+    import time
+    from fv.absint import Sq, p_sym, p_add, p_mul, p_const
+    from . import symalg
+    quick = R.tier != "thorough"
+    lengths = [l for l in LENGTHS if l <= (256 if quick else 1024)]
+    prod_max = 16 if quick else 64
+    S = Session()
+    ctx = S.ctx
+    ctx.path_mode_fns = lambda inst: True
+    ctx.path_budget = 200000000
+    ctx.hooks["may_panic"] = lambda inst: False
+    ctx.hooks["exact_collect_max"] = 64
+    symalg.install(S, symalg.felt_contract_models(S))
+    u32, usz = S.ty("u32"), ctx.usize_ty()
+    fft = S.find(f"{FFT_IMPL}::fft")
+    ifft = S.find(f"{FFT_IMPL}::ifft")
+    hmul = S.find(f"polynomial::Polynomial::<{FELT}>::hadamard_mul")
+
+    def sym_poly(st, nm, n):
+        hd = {}
+        for j in range(n):
+            x = ctx.mk_int(st, 0, Q - 1, u32)
+            st.res[x.vid] = p_sym(f"{nm}{j}")
+            hd[j] = Ag((x,))
+        return Ag((Sq(Ag((ctx.mk_int(st, 0, Q - 1, u32),)), ctx.const_int(st, n, usz), hd),))
+
+    def forms(st, v, n):
+        c = v.f[0]
+        if type(c) is not Sq or not c.head or len(c.head) != n or st.const(c.len) != n:
+            return None
+        return [st.res.get(c.head[i].f[0].vid) for i in range(n)]
+    times = {}
+    for n in lengths:
+        t0 = time.time()
+        st = St()
+        st.res[("dummy",)] = {}
+        ctx.res_syms = {}
+        a = S.cell(st, "a", sym_poly(st, "a", n))
+        outs = S.run(fft, [a], st)
+        site = f"fft, n = {n}"
+        if len(outs) != 1:
+            R.violation("C11-algebra", site, f"{len(outs)} outcomes from the symbolic run", key=f"alg|fft|{n}")
+            continue
+        fa, s2 = outs[0]
+        fm = forms(s2, fa, n)
+        ok, why = fm is not None and all(f is not None for f in fm), "no exact residue forms for the outputs"
+        roots = []
+        if ok:
+            for i, f in enumerate(fm):
+                co = {}
+                for mono, c in f.items():
+                    if len(mono) != 1 or mono[0][1] != 1 or not mono[0][0].startswith("a"):
+                        ok, why = False, f"output {i} is not a linear form in the inputs"
+                        break
+                    co[int(mono[0][0][1:])] = c
+                if not ok:
+                    break
+                r = co.get(1, 0) if n > 1 else None
+                if n == 1:
+                    if co != {0: 1}:
+                        ok, why = False, f"length 1: output is {f}"
+                    continue
+                if pow(r, n, Q) != Q - 1 or any(co.get(j, 0) != pow(r, j, Q) for j in range(n)):
+                    ok, why = False, f"output {i} is not a(r) for a root r of X^{n}+1 (coefficient of a1 is {r})"
+                    break
+                roots.append(r)
+            if ok and n > 1 and len(set(roots)) != n:
+                ok, why = False, "two outputs evaluate at the same root"
+        R.check(ok, "C11-algebra", site, f"for all inputs: output i = a(r_i), r_i^{n} = -1, the {n} roots pairwise distinct (exact residue identities)", why, key=f"alg|fft|{n}")
+        # inverse of forward
+        S.cell(s2, "fa", fa)
+        outs2 = S.run(ifft, [Pt(("h", "fa"))], s2)
+        okb = len(outs2) == 1
+        if okb:
+            ra, s3 = outs2[0]
+            fb = forms(s3, ra, n)
+            okb = fb is not None and all(fb[j] == p_sym(f"a{j}") for j in range(n))
+        R.check(okb, "C11-algebra", f"ifft(fft(a)), n = {n}", "equals a for all inputs (exact)", "the composition is not the identity", key=f"alg|inv|{n}")
+        # product
+        if n <= prod_max and ok:
+            b = S.cell(s2, "b", sym_poly(s2, "b", n))
+            o3 = S.run(fft, [b], s2)
+            okp = len(o3) == 1
+            if okp:
+                fbv, s4 = o3[0]
+                S.cell(s4, "fb", fbv)
+                o4 = S.run(hmul, [Pt(("h", "fa")), Pt(("h", "fb"))], s4)
+                okp = len(o4) == 1
+            if okp:
+                pr, s5 = o4[0]
+                S.cell(s5, "pr", pr)
+                o5 = S.run(ifft, [Pt(("h", "pr"))], s5)
+                okp = len(o5) == 1
+            if okp:
+                res, s6 = o5[0]
+                fr_ = forms(s6, res, n)
+                want = []
+                for k in range(n):
+                    acc = {}
+                    for i in range(n):
+                        for j in range(n):
+                            if (i + j) % n == k:
+                                acc = p_add(acc, p_mul(p_sym(f"a{i}"), p_sym(f"b{j}")), 1 if i + j < n else -1)
+                    want.append(acc)
+                okp = fr_ is not None and fr_ == want
+            R.check(okp, "C11-algebra", f"ifft(fft(a) .* fft(b)), n = {n}", "equals the negacyclic product a*b mod (X^n+1) for all inputs (exact)", "differs from the negacyclic product", key=f"alg|prod|{n}")
+        times[n] = round(time.time() - t0, 2)
+    R.analysed["algebra_lengths"] = lengths
+    R.analysed["algebra_seconds"] = times
+    R.analysed.setdefault("unsupported", []).extend(S.unsupported[:5])
+    R.floor("lengths with exact transform algebra", len(times), len(lengths))
